@@ -713,6 +713,8 @@ void World::exec_env_op(const Step& s)
             if (!c.live)
                 c.h.reset();
         FullObs before = observe();
+        const bool table_obs = v2 && tstate && tstate->lib && check(CK_RELOAD);
+        const std::string tdig_before = table_obs ? table_digest() : std::string();
         const bool pure_load = check(CK_PURITY);
         const uint64_t image_before = pure_load ? g_disk.image_hash(false) : 0;
         const uint64_t writes_before = g_disk.lib_writes + g_disk.lib_truncates;
@@ -827,6 +829,15 @@ void World::exec_env_op(const Step& s)
                 report("C10", "C10|reload|" + fam() + "|observation-differs",
                        "before close: [" + l1 + "] after reload: [" + l2 + "]");
             }
+        }
+        if (table_obs && tstate && tstate->lib)
+        {
+            // what the 2.x table API shows (rows, lists, entities, change log, Information) is observable too
+            if (table_digest() != tdig_before)
+                report("C10", "C10|reload|" + fam() + "|table-observation-differs",
+                       "the table API's view of the library (track rows, playlists, entities, change log, Information) differs "
+                       "after close + load");
+            probes.hit("reload_table_compared");
         }
         if (check(CK_MODEL))
             check_model(after);
